@@ -647,6 +647,95 @@ pub fn branch_determined_by_type(branches: &[RSchema], i: usize, env: &Env, reco
 	branches.iter().enumerate().all(|(j, b)| j == i || accepts_call(b, call, env).map_or(true, |p| p > mine))
 }
 
+/// Names under which the crate registers a union branch (its by-name lookup table).
+pub fn registered_names(s: &RSchema, env: &Env) -> Vec<String> {
+	let r = env.resolve(s);
+	let named = |name: &String| vec![split_fullname(name).1.to_owned(), name.clone()];
+	match r {
+		RSchema::Logical(Logical::Decimal { .. }, b) => {
+			let mut v = vec!["Decimal".to_owned()];
+			if let RSchema::Fixed { name, .. } = env.resolve(b) {
+				v.extend(named(name));
+			}
+			v
+		}
+		RSchema::Logical(Logical::Unknown(_), b) => registered_names(b, env),
+		RSchema::Record { name, .. } | RSchema::Enum { name, .. } | RSchema::Fixed { name, .. } => named(name),
+		other => vec![branch_name(other, env)],
+	}
+}
+
+/// Can a value of branch `i` be presented by name: does the name we would use designate only it?
+pub fn branch_designatable_by_name(branches: &[RSchema], i: usize, env: &Env) -> bool {
+	let mine = branch_name(&branches[i], env);
+	branches.iter().enumerate().all(|(j, b)| j == i || !registered_names(b, env).contains(&mine))
+}
+
+thread_local! {
+	static UNDESIGNATABLE: std::cell::Cell<bool> = const { std::cell::Cell::new(false) };
+}
+/// `pres_of` met a union branch that neither its type nor any name designates (two branches the
+/// crate addresses by the same name): no presentation "determines the branch", the property's
+/// premise cannot be met for this value. Reading the flag resets it.
+pub fn take_undesignatable() -> bool {
+	UNDESIGNATABLE.with(|c| c.replace(false))
+}
+
+/// Three-branch unions over representative kinds (one per kind the lookup table distinguishes,
+/// plus array / map / record): every ordered triple of distinct kinds with pairwise different
+/// unnamed base types.
+pub fn triple_unions(n: &mut Names) -> Vec<RSchema> {
+	use RSchema as S;
+	const KINDS: usize = 21;
+	let kind = |k: usize, n: &mut Names| -> RSchema {
+		match k {
+			0 => S::Null,
+			1 => S::Boolean,
+			2 => S::Int,
+			3 => S::Long,
+			4 => S::Float,
+			5 => S::Double,
+			6 => S::Bytes,
+			7 => S::String,
+			8 => S::fixed(&n.fresh("ns.Fx"), 2),
+			9 => S::fixed(&n.fresh("Fy"), 2),
+			10 => S::enum_(&n.fresh("En"), &["a", "b"]),
+			11 => S::decimal_bytes(10, 0),
+			12 => S::decimal_fixed(&n.fresh("Dec"), 4, 8, 1),
+			13 => S::logical(Logical::BigDecimal, S::Bytes),
+			14 => S::logical(Logical::Uuid, S::String),
+			15 => S::logical(Logical::Date, S::Int),
+			16 => S::logical(Logical::TimeMicros, S::Long),
+			17 => S::logical(Logical::Duration, S::fixed(&n.fresh("Dur"), 12)),
+			18 => S::array(S::Int),
+			19 => S::map(S::Int),
+			_ => S::record(&n.fresh("ns.Rec"), vec![("a", S::Int)]),
+		}
+	};
+	let unnamed_base = |s: &RSchema| match s.base() {
+		RSchema::Fixed { .. } | RSchema::Enum { .. } | RSchema::Record { .. } => None,
+		other => Some(std::mem::discriminant(other)),
+	};
+	let mut out = Vec::new();
+	for a in 0..KINDS {
+		for b in 0..KINDS {
+			for c in 0..KINDS {
+				if a == b || b == c || a == c {
+					continue;
+				}
+				let v = vec![kind(a, n), kind(b, n), kind(c, n)];
+				let bases: Vec<_> = v.iter().map(unnamed_base).collect();
+				let clash = (0..3).any(|i| (0..i).any(|j| bases[i].is_some() && bases[i] == bases[j]));
+				if clash {
+					continue;
+				}
+				out.push(S::Union(v));
+			}
+		}
+	}
+	out
+}
+
 #[derive(Clone, Copy, Debug, PartialEq, Eq)]
 pub enum UnionStyle {
 	/// type-directed where natural classes are pairwise distinct, by name otherwise
@@ -732,6 +821,9 @@ pub fn pres_of(v: &RValue, s: &RSchema, env: &Env, us: UnionStyle, rs: RecordSty
 				inner_p
 			} else {
 				let name = branch_name(b, env);
+				if !branch_designatable_by_name(branches, *i, env) {
+					UNDESIGNATABLE.with(|c| c.set(true));
+				}
 				if matches!(env.resolve(b), RSchema::Null) {
 					Pres::unit_variant(&name)
 				} else {
